@@ -177,7 +177,7 @@ Lemma iH_enter c t q l :
   IInvH c -> IInvA e L c ->
   t_pc (c_pool c t) = PLdY q (s_y (c_sh c)) ->
   (exists a r, l = LAtom t SY ALoad a r (o_ldy q)) ->
-  IInvH (commit c t (c_sh c) (set_pc (c_pool c t) (PSrc q (s_y (c_sh c)) [])) l []).
+  IInvH (commit c t (c_sh c) (set_pc (c_pool c t) (PChkT q (s_y (c_sh c)))) l []).
 Proof.
   intros I A Hpc (a & r & ->).
   pose proof (a_prot e L c A) as P.
@@ -287,7 +287,7 @@ Qed.
 Lemma iH_step c t : IInvH c -> IInvA e L c -> In t L -> istep_nowrap c t -> IInvH (step e c t).
 Proof.
   intros I A Hin Hw. unfold istep_nowrap in Hw.
-  destruct (t_pc (c_pool c t)) as [|q|q b|q b|q b got|q b got|q b got|q b got| |hm|hm] eqn:Hpc.
+  destruct (t_pc (c_pool c t)) as [|q|q b|q b|q b|q b got|q b got|q b got|q b got| |hm|hm] eqn:Hpc.
   - destruct (t_todo (c_pool c t)) as [|o rest] eqn:Htodo.
     + rewrite (istep_idle_nil e c t) by assumption. exact I.
     + rewrite (istep_idle_call e c t o rest) by assumption. unfold call.
@@ -314,6 +314,11 @@ Proof.
       * apply iH_finish_grow; [exact I|exact A|rewrite Hpc; reflexivity|reflexivity|lia|apply grows_yload].
       * apply iH_grow; [exact I|exact A|rewrite Hpc; reflexivity|reflexivity|apply grows_yload|].
         apply dead_keep; [reflexivity|lia|]. cbn [set_pc t_pc ticket]. rewrite Hpc. cbn [ticket]. auto.
+  - assert (Ct : in_crit (t_pc (c_pool c t)) = true) by (rewrite Hpc; reflexivity).
+    rewrite (istep_chkt e c t q b Hpc). destruct (s_f (c_sh c)).
+    + destruct (finish_form c t (c_sh c) (c_pool c t) (LAtom t SF ALoad 0 (bN true) (o_chkt q)) q (Ok PREnd)) as (ts' & evs & -> & Ct' & Tt').
+      apply iH_abandon; [exact I|exact A|exact Ct|exact Ct'|exact Tt'|reflexivity|reflexivity|apply grows_atom_other; discriminate].
+    + apply iH_keep; [exact I|exact A|exact Ct|reflexivity|apply grows_atom_other; discriminate].
   - assert (Ct : in_crit (t_pc (c_pool c t)) = true) by (rewrite Hpc; reflexivity).
     assert (Hacc : forall sh' p' l, in_crit p' = true -> ((exists r, l = LSrc t r) \/ l = LSrcPanic t) ->
               IInvH (commit c t sh' (set_pc (c_pool c t) p') l [])).
@@ -359,6 +364,77 @@ Proof.
   - rewrite (istep_len2 e c t hm Hpc).
     apply iH_grow; [exact I|exact A|rewrite Hpc; reflexivity|reflexivity|apply grows_atom_other; discriminate|].
     apply dead_keep; [reflexivity|lia|]. cbn [set_pc t_pc ticket]. intros b n H. discriminate.
+Qed.
+
+(** ** the dead state is permanent *)
+
+(** the thread inside the critical section leaves it without publishing: the ticket at the yielded
+    counter is given up *)
+Lemma dead_abandon c t sh' ts' l evs :
+  IInvA e L c -> in_crit (t_pc (c_pool c t)) = true -> ticket (t_pc ts') = None ->
+  s_c sh' = s_c (c_sh c) -> s_y sh' = s_y (c_sh c) ->
+  dead (commit c t sh' ts' l evs).
+Proof.
+  intros A Ct Tt' Ec Ey. unfold dead. cbn [commit c_sh c_pool]. rewrite Ec, Ey.
+  pose proof (a_prot e L c A) as P.
+  assert (exists b n, ticket (pcs_of c t) = Some (b, n)) as (b & n & Tt)
+    by (unfold pcs_of; destruct (t_pc (c_pool c t)); cbn in *; try discriminate; eauto).
+  pose proof (p_crit _ _ _ _ _ P t _ _ Ct Tt) as Hb. subst b.
+  pose proof (p_tk _ _ _ _ _ P t _ _ Tt) as (Hn1 & _ & Hsc).
+  split; [lia|]. intros u b' m. destruct (Nat.eq_dec u t) as [->|Hn]; [rewrite upd_same, Tt'; discriminate|].
+  rewrite upd_other by assumption. intros E.
+  pose proof (p_tk _ _ _ _ _ P u b' m E) as (H1 & H2 & H3).
+  pose proof (p_disj _ _ _ _ _ P u t b' m _ _ Hn E Tt). lia.
+Qed.
+
+Lemma dead_nocrit c t : IInvA e L c -> dead c -> in_crit (t_pc (c_pool c t)) = false.
+Proof.
+  intros A [_ D2]. destruct (in_crit (t_pc (c_pool c t))) eqn:Ct; [exfalso|reflexivity].
+  assert (exists b n, ticket (pcs_of c t) = Some (b, n)) as (b & n & Tt)
+    by (unfold pcs_of; destruct (t_pc (c_pool c t)); cbn in *; try discriminate; eauto).
+  pose proof (p_crit _ _ _ _ _ (a_prot e L c A) t _ _ Ct Tt) as Hb. apply (D2 t b n Tt Hb).
+Qed.
+
+(** once the ticket at the yielded counter has been given up, it stays so: nobody is inside the critical
+    section, the yielded counter does not move, and new tickets begin at the reserved counter *)
+Lemma dead_step c t : IInvA e L c -> istep_nowrap c t -> dead c -> dead (step e c t).
+Proof.
+  intros A Hw D. unfold istep_nowrap in Hw.
+  pose proof (dead_nocrit c t A D) as Hnc. revert Hnc.
+  assert (Hfin : forall sh' l q pr, s_y sh' = s_y (c_sh c) -> s_c (c_sh c) <= s_c sh' ->
+                 dead (finish e c t sh' (c_pool c t) l q pr)).
+  { intros sh' l q pr Ey Ec. destruct (finish_form c t sh' (c_pool c t) l q pr) as (ts' & evs & -> & _ & Tt').
+    apply dead_keep; [exact Ey|exact Ec| |exact D]. intros b n H. rewrite Tt' in H. discriminate. }
+  destruct (t_pc (c_pool c t)) as [|q|q b|q b|q b|q b got|q b got|q b got|q b got| |hm|hm] eqn:Hpc;
+    intros Hnc; try discriminate Hnc.
+  - destruct (t_todo (c_pool c t)) as [|o rest] eqn:Htodo.
+    + rewrite (istep_idle_nil e c t) by assumption. exact D.
+    + rewrite (istep_idle_call e c t o rest) by assumption. unfold call.
+      destruct (a_wf e L c A t) as (_ & Hops & Hbuf). rewrite Htodo in Hops. inversion Hops as [|? ? Hwo _]; subst.
+      destruct (call_res e (c_pool c t) o) as [p|b r d] eqn:E.
+      * destruct (call_go_iter e Hk _ _ _ E Hwo Hbuf) as (Tp & _).
+        apply dead_keep; [reflexivity|lia| |exact D]. cbn [t_pc]. intros b n H. rewrite Tp in H. discriminate.
+      * apply dead_keep; [reflexivity|lia| |exact D]. cbn [t_pc ticket]. intros b0 n H. discriminate.
+  - rewrite (istep_res e Hk c t q Hpc).
+    apply dead_keep; cbn [with_c s_y s_c set_pc t_pc ticket]; [reflexivity| | |exact D].
+    + unfold wadd. rewrite N.mod_small by exact Hw. lia.
+    + intros b n H. injection H as <- _. right. reflexivity.
+  - rewrite (istep_chkf e c t q b Hpc). destruct (s_f (c_sh c)).
+    + apply Hfin; [reflexivity|lia].
+    + apply dead_keep; [reflexivity|lia| |exact D]. cbn [set_pc t_pc ticket]. rewrite Hpc. cbn [ticket]. auto.
+  - rewrite (istep_ldy e c t q b Hpc). destruct (N.eqb_spec b (s_y (c_sh c))) as [Eb|Nb].
+    + exfalso. destruct D as [_ D2]. apply (D2 t b (pub_incr q)); [rewrite Hpc; reflexivity|exact Eb].
+    + destruct (b <? s_y (c_sh c)).
+      * apply Hfin; [reflexivity|lia].
+      * apply dead_keep; [reflexivity|lia| |exact D]. cbn [set_pc t_pc ticket]. rewrite Hpc. cbn [ticket]. auto.
+  - rewrite (istep_skip e Hk c t Hpc).
+    apply dead_keep; [reflexivity|cbn [with_f s_c]; lia| |exact D]. cbn [set_pc t_pc ticket]. intros b n H. discriminate.
+  - rewrite (istep_len e Hk c t hm Hpc).
+    assert (Hg : forall p' l evs, ticket p' = None -> dead (commit c t (c_sh c) (set_pc (c_pool c t) p') l evs)).
+    { intros p' l evs Tp. apply dead_keep; [reflexivity|lia| |exact D]. cbn [set_pc t_pc]. intros b n H. rewrite Tp in H. discriminate. }
+    destruct (s_f (c_sh c)); [apply Hg; reflexivity|]. destruct (e_hint e); apply Hg; reflexivity.
+  - rewrite (istep_len2 e c t hm Hpc).
+    apply dead_keep; [reflexivity|lia| |exact D]. cbn [set_pc t_pc ticket]. intros b n H. discriminate.
 Qed.
 
 Lemma iH_init progs : IInvH (init progs).
